@@ -639,10 +639,10 @@ def run_api_case(L: ApiLayout, case: dict) -> list[dict]:
             add("static.trees", "to", "cwd", False, tr([p for p in lits + matches if is_dir(p)]), tr_trees)
             add("static.files", "to", "cwd", False, tr([p for p in lits + matches if not is_dir(p)]), tr_files)
             if len(tr_patterns) == 1:
-                add("static.pattern", "to", "cwd", True, [(pattern, "keeptr")], [tr_patterns[0][0]])
-                add("static.matches", "to", "cwd", False, [(m, "keeptr") for m in matches], tr_patterns[0][1])
+                add("static.pattern", "to", "cwd", True, [(pattern, "globtr")], [tr_patterns[0][0]])
+                add("static.matches", "to", "cwd", False, [(m, "globtr") for m in matches], tr_patterns[0][1])
             else:
-                add("static.pattern", "to", "cwd", True, [(pattern, "keeptr")], [p for p, _ in tr_patterns])
+                add("static.pattern", "to", "cwd", True, [(pattern, "globtr")], [p for p, _ in tr_patterns])
         else:
             add("static", "to", "cwd", False, [], error=repr(exc), unexpected=True)
         # glob()
@@ -654,8 +654,8 @@ def run_api_case(L: ApiLayout, case: dict) -> list[dict]:
             exc = e
         call = last("register_glob")
         if call is not None:
-            add("glob.pattern", "to", "cwd", True, [(pattern, "keeptr")], [call[1][1]])
-            add("glob.matches", "to", "cwd", False, [(m, "keeptr") for m in matches], call[1][3])
+            add("glob.pattern", "to", "cwd", True, [(pattern, "globtr")], [call[1][1]])
+            add("glob.matches", "to", "cwd", False, [(m, "globtr") for m in matches], call[1][3])
         else:
             add("glob", "to", "cwd", False, [], error=repr(exc), unexpected=True)
         # get_info(): the director reports paths relative to the root, workdir = where this step runs
@@ -698,6 +698,8 @@ def api_lines(L: ApiLayout, case: dict, group: dict) -> list[str]:
             lines.append(f"c20 exetr {env} {hexs(given)} {hexs(wd)}")
         elif transform == "keeptr":
             lines.append(f"c20 keeptr {env} {hexs(given)}")
+        elif transform == "globtr":
+            lines.append(f"c20 globtr {env} {hexs(given)}")
         elif transform == "back":
             lines.append(f"c20 back {env} {hexs(given)} {hexs('.')}")
         elif transform == "keepback":
@@ -794,6 +796,10 @@ def check_api_case(L: ApiLayout, case: dict) -> list[tuple[str, str, object, obj
                 if transform == "keeptr":
                     lead, trail = flags(given)
                     ref = ("./" if lead else "") + ref + ("/" if trail else "")
+                if transform == "globtr":
+                    # a pattern or a match: the director compares it with the labels of its files, so only
+                    # the trailing separator (a directory pattern) carries meaning
+                    ref = ref + ("/" if flags(given)[1] else "")
                 expected.append(ref)
         else:
             for given, transform in g["items"]:
